@@ -151,10 +151,11 @@ def execute_gdb(events, rng):
 
 def judge(ctx, events, model, obs, conns, tier):
     case_events = []
+    full = [dict(e, rec=(None if e.get('rec') is None else {k: v for k, v in e['rec'].items()})) for e in events]
     for step, (ev, ob) in enumerate(zip(events, obs)):
         ctx.ev()
         case_events.append([ev['type'], ev['slot'], ev['thread']] + ([ev['rec']['iface'], ev['rec']['name']] if ev['type'] == 'msg' else [ev['what']]))
-        case = {'events': case_events[-40:], 'step': step, 'tier': tier}
+        case = {'events': case_events[-40:], 'step': step, 'tier': tier, 'full_events': full}
         lines = [l for l in ob['lines'] if not l.startswith('Warning: Got message')]
         items = [outline.parse_line(l) for l in lines]
         if ev['type'] == 'msg':
@@ -273,6 +274,12 @@ def finalize(m):
 
 
 def replay(ctx, case):
-    print('C15 sequences are generated with simulated histories; re-run the check with the same seed to reproduce. Tail of the event sequence:')
+    env.setup({'gdb_shim': True})
+    if case.get('full_events'):
+        events = case['full_events']
+        obs, conns = execute_shim(events, ctx.rng) if case.get('tier', 'A') == 'A' else execute_gdb(events, ctx.rng)
+        ok = judge(ctx, events, None, obs, None, case.get('tier', 'A'))
+        print('replayed %d events on tier %s: %s' % (len(events), case.get('tier', 'A'), 'no difference from the model' if ok else 'VIOLATION reproduced'))
+        return
     for e in case.get('events', []):
         print('  ', e)
